@@ -15,6 +15,19 @@ CLAIMS = {
         "Known findings (deliberate upstream behaviour) are listed in known_findings.json.",
    technique="interprocedural alias/ownership dataflow over the AST (may-analysis, summaries to fixpoint)",
    design="4 C10, 3.1"),
+ 'C09': dict(
+   text="History independence decided structurally for all interleavings at once: a three-valued (absent/fresh/stale) dataflow over every "
+        "public mutator and setter of every class with lazyproperties proves that each state write is followed, on every path, by an "
+        "invalidation of every dependent cache (L1); cache-presence branches (L2), memory-saving deletions against all later readers under "
+        "path guards decided by truth tables (L3), aperture attribute descriptors (L4), the interpolator memo key (L5), in-place writes "
+        "inside getters (A2) and re-entrancy of all call-like entries (no configuration attribute written, every per-call attribute assigned "
+        "before its first read: ECALL) are rule sets of the same kind. Orders of reads/calls are covered because every obligation is per "
+        "(writer, reader) pair, not per order.",
+   note="Trusted: dependency extraction (a lazy value depends on the self attributes its getter transitively reads), the ALLOWED_SEEDS / "
+        "ALLOWED_CACHE_TESTS tables (one reason per row), config atoms stable after __init__ (checked). Numerical equality with a fresh object "
+        "is not decided. Ellipse's persistent geometry overrides are known findings.",
+   technique="typestate/dataflow over lazyproperty caches + guard truth tables + must-assigned analysis (AST)",
+   design="4 C09, 3.2, 3.3"),
 }
 
 fix_commits = subprocess.run(['git', '-C', '/repo', 'log', '--format=%h %s', '8203d59..HEAD'],
